@@ -124,11 +124,19 @@ def audit(log_path, allowed_write_prefixes, tcp, label, phases=None):
     return findings, stats
 
 
-def lsp_session(wd, tcp, default_paths, rng, label):
+def lsp_session(wd, tcp, default_paths, rng, label, variant=None):
     shutil.rmtree(wd, ignore_errors=True)
     os.makedirs(wd)
     log = os.path.join(wd, "strace.log")
+    if variant == "non-utf8-user-dictionary":
+        # a word list saved in Latin-1 by some other tool sits where the user dictionary is configured
+        os.makedirs(os.path.join(wd, "dict"))
+        with open(os.path.join(wd, "dict", "user.txt"), "wb") as f:
+            f.write(b"caf\xe9\nzorptang\n")
     s = Server(wd, tcp=tcp, default_paths=default_paths, strace=["strace", "-f", "-ttt", "-o", log, "-e", TRACE])
+    if variant == "empty-path-settings":
+        # the editor snippets in the documentation show the path settings as empty strings: "not set"
+        s.settings["harper-ls"].update({"userDictPath": "", "fileDictPath": ""})
     phases = []
     files = os.path.join(wd, "files")
     os.makedirs(files)
@@ -255,7 +263,8 @@ def run(tier, seed, scale, verif):
     shutil.rmtree(base, ignore_errors=True)
     os.makedirs(base)
     rng = random.Random(seed)
-    sessions = [("stdio/custom-paths", False, False), ("stdio/default-paths", False, True), ("tcp/custom-paths", True, False)]
+    sessions = [("stdio/custom-paths", False, False), ("stdio/default-paths", False, True), ("tcp/custom-paths", True, False),
+                ("stdio/empty-path-settings", False, True), ("stdio/non-utf8-user-dictionary", False, False)]
     if tier == "thorough":
         sessions += [("stdio/custom-paths#%d" % i, False, False) for i in range(int(12 * scale))] + [("tcp/default-paths", True, True)]
     findings = []
@@ -267,7 +276,8 @@ def run(tier, seed, scale, verif):
     for label, tcp, dflt in sessions:
         wd = os.path.join(base, re.sub(r"[^a-z0-9]", "_", label))
         try:
-            log, allowed, phases = lsp_session(wd, tcp, dflt, rng, label)
+            variant = label.split("/", 1)[1] if label.split("/", 1)[1] in ("empty-path-settings", "non-utf8-user-dictionary") else None
+            log, allowed, phases = lsp_session(wd, tcp, dflt, rng, label, variant)
         except (client.Timeout, client.ServerDied) as e:
             inconclusive.append("%s: %s" % (label, e))
             continue
